@@ -925,6 +925,12 @@ class CannotEval(Exception):
     pass
 
 
+_PURE_METHODS = {"lower", "upper", "strip", "rstrip", "lstrip", "startswith", "endswith", "to_bytes", "replace", "zfill", "rjust",
+                 "ljust", "center", "decode", "encode", "title", "capitalize", "split", "rsplit", "splitlines", "isdecimal", "isdigit",
+                 "isalpha", "isalnum", "find", "rfind", "count", "bit_length", "removeprefix", "removesuffix", "partition",
+                 "rpartition", "tobytes", "swapcase", "casefold", "isspace", "isupper", "islower", "expandtabs"}
+
+
 def evaluate(t, env, memo=None):
     """env maps terms (Sym / opaque Op) -> python value."""
     if memo is None:
@@ -1006,9 +1012,33 @@ def evaluate(t, env, memo=None):
             r = int.from_bytes(bytes(b), evaluate(t.args[1], env, memo), signed=bool(evaluate(t.args[2], env, memo)))
         elif op == "m:hex" and len(t.args) == 1:
             r = bytes(evaluate(t.args[0], env, memo)).hex()
-        elif op in ("m:lower", "m:upper", "m:strip", "m:rstrip", "m:lstrip", "m:startswith", "m:endswith"):
+        elif op[:2] == "m:" and op[2:] in _PURE_METHODS:
+            kw = {}
+            pos = []
+            for a in t.args:
+                if isinstance(a, Op) and a.op == "kw":
+                    for kvp in a.args:
+                        kw[evaluate(kvp.args[0], env, memo)] = evaluate(kvp.args[1], env, memo)
+                else:
+                    pos.append(evaluate(a, env, memo))
+            recv = pos[0]
+            if isinstance(recv, memoryview):
+                recv = bytes(recv)
+            if not isinstance(recv, (str, bytes, int, bytearray)) or isinstance(recv, bool):
+                raise CannotEval(repr(t)[:120])
+            try:
+                r = getattr(recv, op[2:])(*pos[1:], **kw)
+            except CannotEval:
+                raise
+            except Exception as e:
+                raise CannotEval("%s raises %s" % (repr(t)[:80], type(e).__name__))
+        elif op in ("list", "tuple_of") and len(t.args) == 1:
+            r = list(evaluate(t.args[0], env, memo))
+            if op == "tuple_of":
+                r = tuple(r)
+        elif op in ("min", "max") and t.args:
             vals = [evaluate(a, env, memo) for a in t.args]
-            r = getattr(vals[0], op[2:])(*vals[1:])
+            r = (min if op == "min" else max)(*vals) if len(vals) > 1 else (min if op == "min" else max)(vals[0])
         elif op == "getslice" and len(t.args) == 3:
             b, lo, hi = (evaluate(a, env, memo) for a in t.args)
             r = b[lo:hi]
